@@ -141,6 +141,20 @@ def decide(ctx, prop, rows, gens):
             # whatever the model says about the document: decoding must return a value or an error
             viol.append(r)
             continue
+        if r["op"] == "jsonenc" and r["id"].endswith(".z"):
+            # the zero value of a union (no alternative chosen): outside the model's values; the
+            # reference (C06 / C07): nothing valid can be written for it, so the encoder must refuse
+            if prop in ("C06", "C07"):
+                st["evaluations"] += 1
+                st["kinds"]["union zero value"] = st["kinds"].get("union zero value", 0) + 1
+                if r["impl"].startswith("enc=ERR") and "PANIC" not in r["impl"]:
+                    st["agree_model"] += 1
+                    st["agree_ref"] += 1
+                else:
+                    r2 = dict(r)
+                    r2["model"] = ["R: a union value with no alternative chosen has no valid encoding: MarshalJSON must return an error"]
+                    viol.append(r2)
+            continue
         if not m or m[0].startswith("unmodelled") or m[0] == "no-model":
             st["unmodelled"] += 1
             continue
